@@ -266,6 +266,24 @@ func VerifC14Patch() {
 	p, err := jd.ReadJsonString(out)
 	vAssert(err == nil, "jd -p printed something that is not JSON")
 	vAssert(p.Equals(b, f.options()...), "jd -p applied to a does not reproduce b")
+	// ... and prints exactly what the library renders for the patched document
+	if dtext, ok := vCLIFile("d.txt"); ok {
+		var d jd.Diff
+		var derr error
+		switch f.format {
+		case "patch":
+			d, derr = jd.ReadPatchString(dtext)
+		case "merge":
+			d, derr = jd.ReadMergeString(dtext)
+		default:
+			d, derr = jd.ReadDiffString(dtext)
+		}
+		if derr == nil {
+			if pn, perr := a.Patch(d); perr == nil {
+				vAssert(out == pn.Json(f.options()...), "jd -p stdout differs from the library rendering of the patched document")
+			}
+		}
+	}
 	vCover("c14.patch")
 	vCLIReset()
 }
@@ -400,13 +418,23 @@ func VerifC14Yaml() {
 	case 1: // patch round trip with YAML documents
 		vCLISetFile("a.yaml", aText)
 		vCLISetFile("b.yaml", bText)
-		code := vCLIRun([]string{"-yaml", "-o", "d.txt", "a.yaml", "b.yaml"})
+		mode := vChoice(3)
+		fl := [...][]string{{"-yaml"}, {"-yaml", "-set"}, {"-yaml", "-mset"}}[mode]
+		opts := [...][]jd.Option{{}, {jd.SET}, {jd.MULTISET}}[mode]
+		code := vCLIRun(append(append([]string{}, fl...), "-o", "d.txt", "a.yaml", "b.yaml"))
 		vAssume(code == 0 || code == 1)
-		code2 := vCLIRun([]string{"-yaml", "-p", "d.txt", "a.yaml"})
+		code2 := vCLIRun(append(append([]string{}, fl...), "-p", "d.txt", "a.yaml"))
 		vAssert(code2 == 0, "-yaml -p rejected the diff printed by jd -yaml")
 		p, err := jd.ReadYamlString(vCLIStdout())
 		vAssert(err == nil, "-yaml -p printed something that is not YAML")
-		vAssert(p.Equals(b), "-yaml -p applied to a does not reproduce b")
+		vAssert(p.Equals(b, opts...), "-yaml -p applied to a does not reproduce b")
+		if dtext, ok := vCLIFile("d.txt"); ok {
+			if d, derr := jd.ReadDiffString(dtext); derr == nil {
+				if pn, perr := a.Patch(d); perr == nil {
+					vAssert(vCLIStdout() == pn.Yaml(opts...), "-yaml -p stdout differs from the library rendering of the patched document")
+				}
+			}
+		}
 		vCover("c14.yaml.patch")
 	case 2:
 		jText := a0.Json()
